@@ -171,13 +171,14 @@ func (c *converter) ProgramEnd() error {
 			`set "_i=0"`,
 			c.callFuncString(sliceLenGetHelper, []string{}, "%2"),
 			":_sch_loop",
-			`if "!_i!" lss "!_len!" (`,
+			`if !_i! lss !_len! (`, // Compare numerically.
 			`for /f "delims=" %%i in ("%2_!_i!") do set "_v=!%%i!"`,
 			c.sliceAssignmentString("!%1!", "!_i!", "!_v!", false),
 			`set /A "_i=!_i!+1"`,
 			"goto :_sch_loop",
 			")",
-			c.callFuncString(sliceLenSetHelper, []string{}, "!%1!", "!_i!"),
+			c.callFuncString(sliceLenGetHelper, []string{}, "!%1!"), // Only grow the destination, a longer destination keeps its length.
+			fmt.Sprintf(`if !_i! gtr !_len! %s`, c.callFuncString(sliceLenSetHelper, []string{}, "!%1!", "!_i!")),
 		)
 	}
 
